@@ -8,16 +8,21 @@ routers/legacy (router.go `NewRouter`, `FindRoute`; pathpattern/node.go `CreateN
     lists are kept sorted (constants first, larger pattern first, then variable, then wildcard);
   * `Match` strips trailing slashes of "METHOD remainingPath" and walks the trie with backtracking,
     including the branch that lets a "/" suffix match exhausted input;
-  * server selection: no servers → URL path; otherwise the first server whose URL pattern `MatchRawURL`
-    accepts the raw request URL (variables stop at the next pattern character or '/');
+  * server selection: no servers → URL path; otherwise the first document-level server whose URL pattern `MatchRawURL`
+    accepts the raw request URL (variables stop at the next pattern character or '/'); path-item level servers are not
+    read; the returned `*Route` is the one stored by NewRouter, its `Server` is never set (`setSrv`);
+  * NewRouter `Add`s the keys while ranging over Go maps: the trie is built from an explicit key list (`legacyRootOf`),
+    two keys with the same suffix path overwrite each other (last one wins, `keyCollision`);
   * no trie match → literal lookup of the remaining path among the path keys: no such key → path-not-found; key
     without the method → method-not-allowed; key with the method (the request path spells a template that the trie
     does not match, e.g. "/{id}.json") → path-not-found.
 routers/gorillamux (router.go `NewRouter`, `makeServers`, `newSrv`, `permutePart`, `FindRoute`;
 openapi3/paths.go `InMatchingOrder`):
-  * route list = paths in matching order × servers; a route matches when path template (base path + path),
-    scheme set and host template match; the first such route decides: method declared → route, else
-    method-not-allowed; no such route → path-not-found;
+  * route list = paths in matching order × servers (`gLoop`: the servers are the document's, or the path item's own —
+    and, as the code assigns the function-level variable, those of the last earlier path item that had its own);
+    each route keeps the `*openapi3.Server` it was built for (`SrvRef`); a route matches when path template (base
+    path + path), scheme set and host template match; the first such route decides: method declared → a copy of the
+    route with that server, else method-not-allowed; no such route → path-not-found;
   * gorilla/mux templates are modelled as anchored regular expressions with `[^/]+` (path) / `[^.]+` (host)
     variables, greedy leftmost-first (longest value first, backtracking).
 Abstracted: net/url parsing (requests are given as scheme/host/path of unreserved characters), regexp engine.
@@ -115,11 +120,6 @@ def mapSetAll (m : List (Str × Str)) (kvs : List (Str × Str)) : List (Str × S
 
 /-! ## documents and requests -/
 
-structure PathDecl where
-  template : Str
-  methods  : List Str
-  deriving DecidableEq, Repr
-
 structure SrvVar where
   name : Str
   dflt : Str
@@ -129,6 +129,13 @@ structure SrvVar where
 structure Server where
   url  : Str
   vars : List SrvVar
+  deriving DecidableEq, Repr
+
+/-- a path item: template, declared methods, path-item level `servers` (empty = the document's servers apply) -/
+structure PathDecl where
+  template : Str
+  methods  : List Str
+  servers  : List Server
   deriving DecidableEq, Repr
 
 structure Doc where
@@ -146,8 +153,16 @@ structure Req where
   path   : Str
   deriving DecidableEq, Repr
 
+/-- which `*openapi3.Server` a returned `Route.Server` points to: nil, the i-th document-level server, or the i-th
+    server of the path item declared under template `t` -/
+inductive SrvRef
+  | none
+  | doc (i : Nat)
+  | path (t : Str) (i : Nat)
+  deriving DecidableEq, Repr
+
 inductive Outcome
-  | route (template : Str) (method : Str) (params : List (Str × Str))
+  | route (template : Str) (method : Str) (params : List (Str × Str)) (server : SrvRef)
   | notFound
   | methodNotAllowed
   | panic
@@ -354,6 +369,11 @@ def optMin : Option Nat → Option Nat → Option Nat
   | a, none => a
   | some a, some b => some (min a b)
 
+/-- where the value of a server variable ends: at the next occurrence of the pattern character that follows the variable
+    or at the next '/', whichever comes first; at the end of the input if neither occurs -/
+def varEnd (pat' input : Str) : Nat :=
+  (optMin (match pat' with | [] => none | d :: _ => indexOf d input) (indexOf '/' input)).getD input.length
+
 /-- Server.MatchRawURL -/
 def matchRawURL : Nat → Str → Str → List Str → Option (List Str × Str)
   | 0, _, _, _ => none
@@ -369,10 +389,7 @@ def matchRawURL : Nat → Str → Str → List Str → Option (List Str × Str)
         match takeBrace prest with
         | none => none
         | some (_, pat') =>
-          let np := match pat' with | [] => none | d :: _ => indexOf d input
-          let ns := indexOf '/' input
-          let i := (optMin np ns).getD input.length
-          matchRawURL f pat' (input.drop i) (params ++ [input.take i])
+          matchRawURL f pat' (input.drop (varEnd pat' input)) (params ++ [input.take (varEnd pat' input)])
       else
         match input with
         | [] => none
@@ -382,48 +399,79 @@ def matchRawURL : Nat → Str → Str → List Str → Option (List Str × Str)
 def rawURL (r : Req) : Str :=
   if r.abs then r.scheme ++ "://".toList ++ r.host ++ r.path else r.path
 
-/-- Servers.MatchURL: first server that matches -/
-def matchServers : List Server → Str → Option (Server × List Str × Str)
-  | [], _ => none
-  | s :: rest, raw =>
+/-- Servers.MatchURL: first server that matches (with its index in the list) -/
+def matchServersFrom : Nat → List Server → Str → Option (Nat × Server × List Str × Str)
+  | _, [], _ => none
+  | i, s :: rest, raw =>
     match matchRawURL (s.url.length + 1) s.url raw [] with
-    | some (ps, rem) => some (s, ps, rem)
-    | none => matchServers rest raw
+    | some (ps, rem) => some (i, s, ps, rem)
+    | none => matchServersFrom (i + 1) rest raw
+
+def matchServers (l : List Server) (raw : Str) : Option (Nat × Server × List Str × Str) := matchServersFrom 0 l raw
 
 def docKeys (d : Doc) : List Key :=
   d.paths.flatMap (fun p => p.methods.map (fun m => ⟨m, p.template⟩))
 
-def legacyRoot (d : Doc) : Node := buildFrom emptyNode (docKeys d)
+/-- the trie after `Add`ing the keys in the given order. NewRouter ranges over Go maps (`doc.Paths.Map()`,
+    `pathItem.Operations()`), so the order is arbitrary: every statement about the legacy router is made for an
+    arbitrary rearrangement `ks` of `docKeys d` -/
+def legacyRootOf (ks : List Key) : Node := buildFrom emptyNode ks
+
+def legacyRoot (d : Doc) : Node := legacyRootOf (docKeys d)
 
 /-- `root.Match(method + " " + remainingPath)` -/
-def legacyMatch (d : Doc) (method rem : Str) : Option (Key × List Str) :=
-  matchN (legacyRoot d) (stripSlashes (method ++ ' ' :: rem)) []
+def legacyMatchOf (ks : List Key) (method rem : Str) : Option (Key × List Str) :=
+  matchN (legacyRootOf ks) (stripSlashes (method ++ ' ' :: rem)) []
+
+def legacyMatch (d : Doc) (method rem : Str) : Option (Key × List Str) := legacyMatchOf (docKeys d) method rem
 
 def lookupPath (t : Str) : List PathDecl → Option PathDecl
   | [] => none
   | p :: ps => if p.template = t then some p else lookupPath t ps
 
-/-- server part of legacy FindRoute: (server parameters, remaining path); `none` = no server matches -/
-def legacyServer (d : Doc) (r : Req) : Option (List (Str × Str) × Str) :=
-  if d.servers = [] then some ([], r.path)
+/-- server part of legacy FindRoute: (index of the matched document-level server, server parameters, remaining path);
+    `none` = no server matches. Path-item level servers are not consulted by this router. -/
+def legacyServer (d : Doc) (r : Req) : Option (Option Nat × List (Str × Str) × Str) :=
+  if d.servers = [] then some (none, [], r.path)
   else match matchServers d.servers (rawURL r) with
     | none => none
-    | some (s, vals, rem) => some ((paramNames (s.url.length + 1) s.url).zip vals, rem)
+    | some (i, s, vals, rem) => some (some i, (paramNames (s.url.length + 1) s.url).zip vals, rem)
 
 def legacyBuildOK (d : Doc) : Bool := (docKeys d).all (fun k => (tokenize k.str).isSome)
 
-def legacyFind (d : Doc) (r : Req) : Outcome :=
+/-- FindRoute of the legacy router on the trie built from `ks`. The returned `*Route` is the one stored by NewRouter,
+    whose `Server` field is never set: `setSrv = false` is the code as it is, `setSrv = true` the code after the
+    repair that copies the route and stores the matched server in it. -/
+def legacyFindOrd (setSrv : Bool) (d : Doc) (ks : List Key) (r : Req) : Outcome :=
   if !legacyBuildOK d then .buildError else
   match legacyServer d r with
   | none => .notFound
-  | some (sp, rem) =>
-    match legacyMatch d r.method rem with
+  | some (si, sp, rem) =>
+    match legacyMatchOf ks r.method rem with
     | some (k, vals) =>
       .route k.template k.method (mapSetAll (mapSetAll [] sp) (((Tok.names k.toks).map trimStar).zip vals))
+        (match si with | some i => if setSrv then .doc i else .none | none => .none)
     | none =>
       match lookupPath rem d.paths with
       | none => .notFound
       | some pd => if r.method ∈ pd.methods then .notFound else .methodNotAllowed
+
+def legacyFind (d : Doc) (r : Req) : Outcome := legacyFindOrd false d (docKeys d) r
+
+/-- the legacy router after the repair (Route.Server = the matched server) -/
+def legacyFindFixed (d : Doc) (r : Req) : Outcome := legacyFindOrd true d (docKeys d) r
+
+/-- two declared keys that CreateNode stores at the same trie node (same method, templates that tokenise to the same
+    suffix path: `/a` and `/a/`): the later `Add` overwrites the earlier one, and "later" is a map iteration order -/
+def keyCollision (ks : List Key) : Bool :=
+  ks.any (fun a => ks.any (fun b => a ≠ b && a.sufs = b.sufs))
+
+def rotations (l : List α) : List (List α) := (List.range l.length).map (fun j => l.drop j ++ l.take j)
+
+/-- the outcomes FindRoute can have over the insertion orders (every key is inserted last in one rotation, and the
+    value of a node is the key that was added last) -/
+def legacyFindAll (setSrv : Bool) (d : Doc) (r : Req) : List Outcome :=
+  ((rotations (docKeys d)).map (fun ks => legacyFindOrd setSrv d ks r)).eraseDups
 
 /-! ## gorillamux router -/
 
@@ -495,6 +543,7 @@ structure GSrv where
   host    : Str
   base    : Str
   upd     : Option (Str × Str)
+  ref     : SrvRef
   deriving DecidableEq, Repr
 
 def insStr (x : Str) : List Str → List Str
@@ -516,8 +565,8 @@ def permuteScheme (scheme0 : Str) (s : Server) : Option (List Str) :=
   | [v] => some (sortDedup ((v.dflt :: v.enum).map (fun val => replaceAllS (braced v.name) val scheme0)))
   | _ => none
 
-/-- newSrv: scheme list, host and base path of a server URL (braces kept) -/
-def newSrv (url : Str) (s : Server) (upd : Option (Str × Str)) : Option GSrv :=
+/-- newSrv: scheme list, host and base path of a server URL (braces kept); `ref` = the `*openapi3.Server` kept in it -/
+def newSrv (url : Str) (s : Server) (upd : Option (Str × Str)) (ref : SrvRef) : Option GSrv :=
   match indexOfStr "://".toList url with
   | some i =>
     match permuteScheme (url.take i) s with
@@ -527,10 +576,10 @@ def newSrv (url : Str) (s : Server) (upd : Option (Str × Str)) : Option GSrv :=
       let host := (takeSeg rest).1
       let path := (takeSeg rest).2
       let base := if path.getLast? = some '/' then path.dropLast else path
-      some ⟨schemes, host, base, upd⟩
+      some ⟨schemes, host, base, upd, ref⟩
   | none =>
     let base := if url.getLast? = some '/' then url.dropLast else url
-    some ⟨[], [], base, upd⟩
+    some ⟨[], [], base, upd, ref⟩
 
 def isSingleVar (url : Str) : Option Str :=
   match url with
@@ -541,12 +590,12 @@ def isSingleVar (url : Str) : Option Str :=
   | _ => none
 
 /-- one iteration of makeServers -/
-def gMakeServer (s : Server) : Option GSrv :=
+def gMakeServer (ref : SrvRef) (s : Server) : Option GSrv :=
   match isSingleVar s.url with
   | some n =>
     match findVar n s.vars with
     | none => none
-    | some v => newSrv v.dflt s none      -- lhs = TrimSuffix(default, default) = "": no updater
+    | some v => newSrv v.dflt s none ref      -- lhs = TrimSuffix(default, default) = "": no updater
   | none =>
     match indexOfStr ":{".toList s.url with
     | some (lhs + 1) =>
@@ -555,15 +604,25 @@ def gMakeServer (s : Server) : Option GSrv :=
       | some (pv, _) =>
         match findVar pv s.vars with
         | none => none
-        | some v => newSrv (replaceAllS (braced pv) v.dflt s.url) s (some (pv, v.dflt))
-    | _ => newSrv s.url s none
+        | some v => newSrv (replaceAllS (braced pv) v.dflt s.url) s (some (pv, v.dflt)) ref
+    | _ => newSrv s.url s none ref
 
-def gMakeServers : List Server → Option (List GSrv)
-  | [] => some []
-  | s :: rest =>
-    match gMakeServer s, gMakeServers rest with
+def gMakeServersFrom (mk : Nat → SrvRef) : Nat → List Server → Option (List GSrv)
+  | _, [] => some []
+  | i, s :: rest =>
+    match gMakeServer (mk i) s, gMakeServersFrom mk (i + 1) rest with
     | some a, some b => some (a :: b)
     | _, _ => none
+
+/-- the `srv{}` that makeServers returns for an empty server list -/
+def noSrv : GSrv := ⟨[], [], [], none, .none⟩
+
+/-- makeServers -/
+def gMakeServers (mk : Nat → SrvRef) (l : List Server) : Option (List GSrv) :=
+  match gMakeServersFrom mk 0 l with
+  | none => none
+  | some [] => some [noSrv]
+  | some (a :: b) => some (a :: b)
 
 structure GRoute where
   template : Str
@@ -591,12 +650,26 @@ def allSome : List (Option α) → Option (List α)
   | none :: _ => none
   | some a :: r => (allSome r).map (a :: ·)
 
-def gorillaRoutes (d : Doc) : Option (List GRoute) :=
-  match gMakeServers d.servers with
+/-- the loop of NewRouter over `InMatchingOrder`. `servers` is a variable of the enclosing function that the loop body
+    overwrites when a path item has its own servers (`servers, err = makeServers(pathItem.Servers)`), so these stay in
+    force for the following path items that have none: `leak = true` is the code as it is, `leak = false` the code after
+    the repair (a path item without servers uses the document's). `cur` = the current value of that variable. -/
+def gLoop (leak : Bool) (docSrvs : List GSrv) : List GSrv → List PathDecl → Option (List GRoute)
+  | _, [] => some []
+  | cur, p :: ps =>
+    match (if p.servers = [] then some (if leak then cur else docSrvs) else gMakeServers (SrvRef.path p.template) p.servers) with
+    | none => none
+    | some use =>
+      match allSome (use.map (mkRoute p)), gLoop leak docSrvs use ps with
+      | some a, some b => some (a ++ b)
+      | _, _ => none
+
+def gorillaRoutesL (leak : Bool) (d : Doc) : Option (List GRoute) :=
+  match gMakeServers SrvRef.doc d.servers with
   | none => none
-  | some srvs =>
-    let srvs := if srvs = [] then [⟨[], [], [], none⟩] else srvs
-    allSome ((inMatchingOrder d.paths).flatMap (fun p => srvs.map (fun s => mkRoute p s)))
+  | some ds => gLoop leak ds ds (inMatchingOrder d.paths)
+
+def gorillaRoutes (d : Doc) : Option (List GRoute) := gorillaRoutesL true d
 
 /-- mux schemeMatcher: URL scheme, or http/https by TLS state (the harness sets TLS iff scheme = https) -/
 def schemeOK (r : GRoute) (req : Req) : Bool := r.srv.schemes = [] || r.srv.schemes.contains req.scheme
@@ -623,13 +696,42 @@ def gFirst : List GRoute → Req → Outcome
     | some b =>
       if req.method ∈ r.methods then
         .route r.template req.method
-          (mapSetAll (mapSetAll [] b) (match r.srv.upd with | some kv => [kv] | none => []))
+          (mapSetAll (mapSetAll [] b) (match r.srv.upd with | some kv => [kv] | none => [])) r.srv.ref
       else .methodNotAllowed
     | none => gFirst rs req
 
-def gorillaFind (d : Doc) (req : Req) : Outcome :=
-  match gorillaRoutes d with
+def gorillaFindL (leak : Bool) (d : Doc) (req : Req) : Outcome :=
+  match gorillaRoutesL leak d with
   | none => .buildError
   | some rs => gFirst rs req
+
+def gorillaFind (d : Doc) (req : Req) : Outcome := gorillaFindL true d req
+
+/-- gorillamux after the repair of the path-item servers leak -/
+def gorillaFindFixed (d : Doc) (req : Req) : Outcome := gorillaFindL false d req
+
+/-! ## percent-encoded paths: which representation of the URL path each router matches on -/
+
+/-- a request as it arrives: `req.path` is the decoded path (`url.Path`), `epath` the escaped one (`url.EscapedPath()`,
+    what is written on the wire); the two are the same string when nothing is percent-encoded -/
+structure Wire where
+  req   : Req
+  epath : Str
+  deriving DecidableEq, Repr
+
+def Wire.raw (w : Wire) : Req := { w.req with path := w.epath }
+
+/-- gorillamux creates its mux router with `UseEncodedPath()`: templates are matched against the escaped path and the
+    extracted values are escaped strings -/
+def gorillaFindW (d : Doc) (w : Wire) : Outcome := gorillaFind d w.raw
+
+/-- the legacy router matches `url.Path` (decoded) when the document has no servers; when it has, `Servers.MatchURL` works
+    on `url.String()` (escaped), and the remaining path it returns is what the trie sees -/
+def legacyFindW (d : Doc) (w : Wire) : Outcome := legacyFind d (if d.servers = [] then w.req else w.raw)
+
+/-- the shape of document on which the leak can show: in matching order, a path item with servers precedes one without -/
+def leakShape : List PathDecl → Bool
+  | [] => false
+  | p :: ps => (p.servers ≠ [] && ps.any (fun q => q.servers = [])) || leakShape ps
 
 end KinModel.Router
